@@ -289,8 +289,18 @@ fn long_words(run: &Run) {
             for (n, c) in w.chars().enumerate() {
                 gen::journal::event(&Ev::Key { code: keys().code_for(c), m: 0, sel: 0 });
                 let t0 = std::time::Instant::now();
+                let c0 = crate::driver::thread_cpu_ms();
                 ctx.ch(c, 0).map_err(|p| Failure::new(panic_kind(&p), format!("long word {w:?} key #{n}: {p}"), json!({"opts": opts.letters(), "long_word": w})))?;
-                let ms = t0.elapsed().as_millis();
+                let wall = t0.elapsed().as_millis();
+                // the bound is on the work done by the call: CPU time of this thread where procfs offers it, so that
+                // a loaded machine cannot turn a descheduled thread into an alarm
+                let ms = match (c0, crate::driver::thread_cpu_ms()) {
+                    (Some(a), Some(b)) => (b - a).min(wall),
+                    _ => wall,
+                };
+                if wall > 8000 && ms <= 8000 {
+                    st.label("long-word-call-over-bound-on-the-wall-clock-only");
+                }
                 times.push(ms);
                 if ms > 8000 {
                     return Err(Failure::new(
@@ -340,8 +350,10 @@ pub fn replay(_run: &Run, case: &Value) -> Result<(), Failure> {
         let ctx = Ctx::new(opts, &sb).map_err(|p| Failure::new(panic_kind(&p), p.to_string(), case.clone()))?;
         for (n, c) in w.chars().enumerate() {
             let t0 = std::time::Instant::now();
+            let c0 = crate::driver::thread_cpu_ms();
             ctx.ch(c, 0).map_err(|p| Failure::new(panic_kind(&p), p.to_string(), case.clone()))?;
-            if t0.elapsed().as_millis() > 8000 {
+            let cpu = match (c0, crate::driver::thread_cpu_ms()) { (Some(a), Some(b)) => b - a, _ => u128::MAX };
+            if t0.elapsed().as_millis().min(cpu) > 8000 {
                 return Err(Failure::new("call-time-blow-up", format!("key #{n} took {} ms", t0.elapsed().as_millis()), case.clone()));
             }
         }
